@@ -1476,7 +1476,7 @@ class Tie:
             k = struct.unpack("<I", arch[-9:-5])[0]
             step = (1 << 30) if cf else (1 << 29)
             # wrapping counts, and - as controls - inconsistent counts that do not wrap onto the real size
-            cands = [(k + m * step, True) for m in ((1, 2, 3) if cf else (1, 2, 7))] + [(k + 1, False), (k + step - 1, False), (k + step + 1, False), ((1 << 27) + 1, False)]
+            cands = [(k + m * step, True) for m in ((1, 2, 3) if cf else (1, 2, 7))] + [(k + 1, False), (k + step - 1, False), (k + step + 1, False), ((1 << 27) + 1, False), (1 << 27, False), ((1 << 27) - 1, False)]
             for (nf, wraps) in cands:
                 for mode in (("mem", "file", "cb") if wraps and nf == k + step else ("mem",)):
                     text = ["archive_file %s" % ap, "setbytes %d %s" % (len(arch) - 9, struct.pack("<I", nf).hex()), "aslimit 3072",
@@ -1512,6 +1512,98 @@ class Tie:
                         self.report(replay, "footer with Number_Of_Frames = %d over %d real entries: %s" % (nf, k, e))
                     except (IndexError, KeyError, ValueError) as e:
                         self.report(replay, "numFrames wrap: unparsable output (%r)" % (e,), no_input=True)
+
+    def phase_r3_input_side(self):
+        """Lock-step of the INPUT side (coq/Seek/SeekInput.v, theorem input_stream_is_the_file) with the real reader, callback access:
+        for every ZSTD_seekable_decompress call of a history (with injected seek failures, read failures, and read failures that move the
+        read head) the model is given what is outside it - the decoder's (input consumed, size hint) per call, whether the cache test
+        restarted, the cOffset of the target frame from the table, which I/O request failed - and must predict the exact sequence of
+        src.seek(offset) / src.read(head, n) requests the real code makes, whether the call fails, and whether the object still claims a
+        position afterwards (curFrame != (U32)-1)."""
+        ctx, rng = self.ctx, self.rng
+        specs = [(bytes(range(0x30, 0x30 + 21)), 7, 0, "small"), (bytes(range(0x30, 0x30 + 21)), 7, 1, "small-ck"),
+                 (bytes(rng.getrandbits(8) for _ in range(300000)), 0, rng.choice([0, 1]), "raw-300k"),       # 128 KB raw blocks: hint > SEEKABLE_BUFF_SIZE
+                 (gen_content(rng, 50000, "text"), 4096, rng.choice([0, 1]), "text-50k")]
+        if not ctx.quick:
+            specs += [(gen_content(rng, rng.randint(1000, 400000), rng.choice(["text", "rand", "zero"])), rng.choice([0, 1000, 65536, 131072]), rng.choice([0, 1]), "rnd%d" % i) for i in range(8)]
+        for (x, mfs, cf, tag) in specs:
+            xp, ap = self.blob(x, "x"), self.path("r3in_%s.zst" % tag)
+            n = len(x)
+            cmds = []
+            for _ in range(14 if ctx.quick else 40):
+                if rng.random() < 0.4:
+                    cmds.append(("cbfail", rng.choice(["seek", "read", "readpart", "readpart"]), rng.choice([1, 1, 2, 3, 5])))
+                o = rng.choice([0, rng.randint(0, n), rng.randint(0, n), max(0, n - rng.randint(0, 9))])
+                cmds.append(("r", o, rng.choice([0, 1, rng.randint(0, min(n - o, 70000)), n - o])))
+            if tag.startswith("small"):
+                cmds = [("cbfail", "readpart", 3), ("r", 0, 7), ("r", 0, 7), ("r", 7, 7), ("cbfail", "seek", 1), ("r", 0, 3), ("r", 0, 3), ("r", 3, 2),
+                        ("cbfail", "read", 2), ("r", 5, 12), ("r", 5, 12), ("r", 21, 1), ("r", 20, 1)] + cmds
+            text = ["content_file %s" % xp, "cinit 3 %d %d" % (cf, mfs), "finish 100000 100000", "save %s" % ap, "log", "open cb"]
+            text += ["%s %s %s" % c for c in cmds] + ["close"]
+            rc, cl, cerr = self.run_c("\n".join(text) + "\n", timeout=120, linebuf=True)
+            replay = dict(kind="r3", scenario="input-side", tag=tag, cf=cf, mfs=mfs, content_hex=(x.hex() if len(x) <= 64 else None), content_len=n,
+                          commands=[list(c) for c in cmds], rc=rc, seed=ctx.seed)
+            try:
+                rl = [l for l in cl if l.startswith("r ")]
+                reads = [c for c in cmds if c[0] == "r"]
+                if rc != 0 or len(rl) != len(reads):
+                    raise Fail("crash / hang (rc=%d): %s" % (rc, (cerr or "")[-300:]))
+                logl = [l for l in cl if l.startswith("log ")][0]
+                log = [tuple(int(v) for v in e.split(":")) for e in logl.split(" :", 1)[1].split()]
+                C, D = cum(log)
+                mtext, tied = ["ifile %s" % ap], []
+                for j, ln in enumerate(rl):
+                    d = kv(ln)[2]
+                    tr = [t.split(":") for t in d["tr"].split(";")] if d["tr"] != "-" else []
+                    io = [t.split(":") for t in d.get("io", "-").split(";")] if d.get("io", "-") != "-" else []
+                    if any(t[0] in "kd" and t[5] == "2" for t in tr) or "OVERFLOW" in d["tr"] or "OVERFLOW" in d.get("io", ""):
+                        break                      # decoder error / overflowing trace: outside the input-side model
+                    last_fail = io[-1] if io and io[-1][-2 if io[-1][0] == "I" else -1] == "0" else None
+                    if d["ret"].startswith("E") and last_fail is None:
+                        break                      # no-progress / checksum error: not an I/O event
+                    segs, cur = [], None
+                    for t in tr:
+                        if t[0] == "R":
+                            cur = ["w", str(C[int(t[1])]), "1", []]
+                            segs.append(cur)
+                        else:
+                            if cur is None:
+                                cur = ["n", "0", "1", []]
+                                segs.append(cur)
+                            cur[3].append([t[4], t[6], "-"])
+                    if last_fail is not None and last_fail[0] == "S":
+                        segs.append(["w", last_fail[1], "0", []])
+                    elif last_fail is not None:
+                        if not segs or not segs[-1][3]:
+                            raise Fail("read #%d: a failed src.read without a decoder call before it (%s)" % (j, ln[:200]))
+                        segs[-1][3][-1][2] = last_fail[4]
+                    mtext.append("icall " + " ".join("%s:%s:%s:%s" % (sg[0], sg[1], sg[2], "/".join(",".join(it) for it in sg[3]) or "-") for sg in segs))
+                    tied.append((j, ln, io))
+                ml = [l for l in self.run_m("\n".join(mtext) + "\n", timeout=300) if l.startswith("icall")]
+                for (j, ln, io), mln in zip(tied, ml):
+                    d, md = kv(ln)[2], kv(mln)[2]
+                    rd = reads[j]
+                    real_io = [":".join(t[:2] + [t[2]]) if t[0] == "S" else ":".join(t[:4]) for t in io]
+                    mod_io = [e for e in (md["ev"].split(";") if md["ev"] != "-" else []) if e[0] in "SI"]
+                    where = "read #%d decompress(dst, %d, %d) [archive %s: %d bytes, maxFrameSize %d, checksumFlag %d; history %s]" % (
+                        j, rd[2], rd[1], tag, n, mfs, cf, " ; ".join("%s %s %s" % c for c in cmds[:cmds.index(rd) + 1][-8:]))
+                    if real_io != mod_io:
+                        k = next((i for i in range(max(len(real_io), len(mod_io))) if i >= len(real_io) or i >= len(mod_io) or real_io[i] != mod_io[i]), 0)
+                        raise Fail("%s: I/O request #%d of the call is %s in the code, %s in the model (S:offset:ok = src.seek, I:head:n:ok = src.read of n bytes "
+                                   "with the read head at head); code %s, model %s" % (where, k, real_io[k] if k < len(real_io) else "none",
+                                                                                        mod_io[k] if k < len(mod_io) else "none", real_io[-6:], mod_io[-6:]))
+                    if (md["ok"] == "1") != (not d["ret"].startswith("E")):
+                        raise Fail("%s: returns %s, model ok=%s" % (where, d["ret"], md["ok"]))
+                    if (md["claim"] == "1") != (d["cur"] != "4294967295"):
+                        raise Fail("%s: afterwards curFrame = %s, the model %s a position" % (where, d["cur"], "claims" if md["claim"] == "1" else "has dropped"))
+                    if not d["ret"].startswith("E") and not self._read_ok(d, x[rd[1]:rd[1] + rd[2]]):
+                        raise Fail("%s: returns %s with wrong bytes" % (where, d["ret"]))
+                    ctx.count(("r3-input", tag, len(real_io) > 0, any(e.endswith(":0") for e in mod_io), d["ret"].startswith("E"), min(3, sum(1 for e in mod_io if e[0] == "S"))))
+                ctx.cov["traces_validated_against_impl"] += len(tied)
+            except Fail as e:
+                self.report(replay, "input side (src.seek / src.read requests, zs->in refills): " + str(e))
+            except (IndexError, KeyError, ValueError, RuntimeError) as e:
+                self.report(replay, "input side: unparsable output / model failure (%r)" % (e,), no_input=True)
 
     def phase_r2_raw_frames(self):
         """Archives assembled with the documented raw API (independently compressed frames + ZSTD_seekable_logFrame +
@@ -1822,7 +1914,7 @@ def replay(ctx):
         {"reinit-modes": t.phase_r2_reinit_modes, "checksum-flag": t.phase_r2_checksum_flag, "beyond-end": t.phase_r2_beyond_end,
          "raw-frames": t.phase_r2_raw_frames, "misc": t.phase_r2_misc}.get(rp.get("scenario"), t.phase_r2_endframe_pending)()
     elif kind == "r3":
-        {"numframes-wrap": t.phase_r3_numframes_wrap}.get(rp.get("scenario"), t.phase_r3_numframes_wrap)()
+        {"numframes-wrap": t.phase_r3_numframes_wrap, "input-side": t.phase_r3_input_side}.get(rp.get("scenario"), t.phase_r3_numframes_wrap)()
     elif kind == "corrupt" and rp.get("archive_hex") is not None:
         v = dict(s=None, arch=bytes.fromhex(rp["archive_hex"]), cls="J", note=rp.get("note", ""), log=[], cf=0, id="k0", mode=rp.get("mode") or "mem",
                  reads=[tuple(r) for r in rp.get("reads", [])])
@@ -1854,7 +1946,7 @@ def run(ctx):
     r = ctx.prove()
     t = Tie(ctx, rng)
     import time as _time
-    for ph in (t.phase_rawtable, t.phase_overlong_frame, t.phase_short_frame, t.phase_io_fault, t.phase_reinit, t.phase_r2_endframe_pending, t.phase_r2_reinit_modes, t.phase_r2_checksum_flag, t.phase_r2_beyond_end, t.phase_r2_misc, t.phase_r2_raw_frames, t.phase_r3_numframes_wrap, t.phase_archives, t.phase_corrupt, t.phase_maxframes):
+    for ph in (t.phase_rawtable, t.phase_overlong_frame, t.phase_short_frame, t.phase_io_fault, t.phase_reinit, t.phase_r2_endframe_pending, t.phase_r2_reinit_modes, t.phase_r2_checksum_flag, t.phase_r2_beyond_end, t.phase_r2_misc, t.phase_r2_raw_frames, t.phase_r3_numframes_wrap, t.phase_r3_input_side, t.phase_archives, t.phase_corrupt, t.phase_maxframes):
         t0 = _time.time()
         ph()
         core.log("C20 %s: %.1fs (evaluations so far %d)" % (ph.__name__, _time.time() - t0, ctx.cov["evaluations"]))
